@@ -37,12 +37,12 @@ Print Assumptions C15_wire_path_exact.
 (** no double encoding, for every setting and every configuration whose
     transformed path is well-formed: what the upstream decodes is what the
     transformed path decodes to *)
-Theorem C15_decoded_path : forall b u,
+Theorem C15_decoded_path : forall f b u,
   match b_rw b with
   | Some rw =>
     let raw' := rw_add rw ++ strip_prefix (rw_cut rw) (escaped_path (u_path u) (u_rawpath u)) in
-    wellformed raw' = true -> unescape (wire_path (create_url b u)) = unescape raw'
-  | None => unescape (wire_path (create_url b u)) = Some (u_path u)
+    wellformed raw' = true -> unescape (wire_path (create_url_fx f b u)) = unescape raw'
+  | None => unescape (wire_path (create_url_fx f b u)) = Some (u_path u)
   end.
 Proof. exact decoded_path_preserved. Qed.
 Print Assumptions C15_decoded_path.
@@ -59,7 +59,7 @@ Theorem C15_request_line : forall fx r u t,
   wire_uri t =
   (if is_empty (wire_path t) then "/" else wire_path t) ++
   (let q' := match b_rw (r_backend r) with
-             | Some rw => remove_from (rw_strip_q rw) (u_query u)
+             | Some rw => remove_from_fx (fx_f1 fx) (rw_strip_q rw) (u_query u)
              | None => u_query u
              end in
    if is_empty q' then "" else String "?" q').
@@ -67,26 +67,28 @@ Proof. exact request_line. Qed.
 Print Assumptions C15_request_line.
 
 (** with nothing to remove, the query is forwarded byte for byte *)
-Theorem C15_query_untouched : forall names q, names = [] \/ q = "" -> remove_from names q = q.
+Theorem C15_query_untouched : forall f names q, names = [] \/ q = "" -> remove_from_fx f names q = q.
 Proof. exact query_untouched. Qed.
 Print Assumptions C15_query_untouched.
 
 (** every field the upstream sees is, name by name, what the specification
-    prescribes — with the forwarded-header block having the last word (C15-F4) *)
+    prescribes — as the tree is now ([fx_f4 fx = false]) with the forwarded-header
+    block having the last word (C15-F4) *)
 Theorem C15_headers_name_by_name : forall fx q pl r tls m uri host hs body k,
   serve fx q pl r = Forwarded tls m uri host hs body -> k <> "Host" ->
-  h_values k hs = expected_values false q pl m k.
+  h_values k hs = expected_values (fx_c13f3 fx) (fx_f4 fx) q pl m k.
 Proof. exact serve_headers. Qed.
 Print Assumptions C15_headers_name_by_name.
 
-(** a header produced by the pipeline under a name spelling [k] in any casing
-    replaces whatever the client sent under a name spelling [k] in any casing *)
-Theorem C15_pipeline_header_wins : forall fx q pl r tls m uri host hs body k v,
+(** the headers the pipeline produced under a name spelling [k] in any casing
+    replace whatever the client sent under a name spelling [k] in any casing *)
+Theorem C15_pipeline_header_wins : forall fx q pl r tls m uri host hs body k,
   serve fx q pl r = Forwarded tls m uri host hs body ->
-  pipeline_value (p_headers pl) k = Some v -> v <> "" ->
-  k <> "Host" -> (k = "Cookie" -> p_cookies pl = []) ->
+  let vs := pipeline_values (fx_c13f3 fx) (p_headers pl) k in
+  first_or_empty vs <> "" ->
+  k <> "Host" -> k <> "User-Agent" -> (k = "Cookie" -> p_cookies pl = []) ->
   forwarding_value q k = None ->
-  h_values k hs = [v].
+  h_values k hs = vs.
 Proof. exact pipeline_header_wins. Qed.
 Print Assumptions C15_pipeline_header_wins.
 
@@ -112,6 +114,8 @@ Print Assumptions C15_no_forwarded_passthrough.
 Theorem C15_forwarded_extended_by_peer : forall fx q pl r tls m uri host hs body,
   serve fx q pl r = Forwarded tls m uri host hs body ->
   let hin := in_headers q in
+  let k := if forwarding_active hin then "X-Forwarded-For" else "Forwarded" in
+  fx_f4 fx = false \/ pipeline_values (fx_c13f3 fx) (p_headers pl) k = [] ->
   if forwarding_active hin
   then h_values "X-Forwarded-For" hs = [append_peer (h_get "X-Forwarded-For" hin) (q_peer q)]
   else h_values "Forwarded" hs =
@@ -127,34 +131,34 @@ Print Assumptions C15_method_body_untouched.
 
 (** the recorded findings, each with its witness *)
 Theorem C15_F1_refuted : exists q pl r,
-  guard_F1 q r = true /\ spec_ok q pl r (serve pinned q pl r) = false /\
-  forwarded_uri (serve pinned q pl r) = "/x?a=1&b=%zz".
+  guard_F1 q r = true /\ spec_ok q pl r (serve current q pl r) = false /\
+  forwarded_uri (serve current q pl r) = "/x?a=1&b=%zz".
 Proof. exact F1_refuted. Qed.
 Print Assumptions C15_F1_refuted.
 
 Theorem C15_F2_refuted : exists q pl r,
-  guard_F2 q = true /\ spec_ok q pl r (serve pinned q pl r) = false /\
-  q_method q = "PROPFIND" /\ forwarded_method (serve pinned q pl r) = "GET".
+  guard_F2 q = true /\ spec_ok q pl r (serve current q pl r) = false /\
+  q_method q = "PROPFIND" /\ forwarded_method (serve current q pl r) = "GET".
 Proof. exact F2_refuted. Qed.
 Print Assumptions C15_F2_refuted.
 
 Theorem C15_F3_refuted : exists q pl r,
-  guard_F3 q r = true /\ spec_ok q pl r (serve pinned q pl r) = false /\
-  forwarded_uri (serve pinned q pl r) = "/0%20/;users".
+  guard_F3 q r = true /\ spec_ok q pl r (serve current q pl r) = false /\
+  forwarded_uri (serve current q pl r) = "/0%20/;users".
 Proof. exact F3_refuted. Qed.
 Print Assumptions C15_F3_refuted.
 
 Theorem C15_F4_refuted : exists q pl r,
-  guard_F4 q pl = true /\ spec_ok q pl r (serve pinned q pl r) = false /\
-  forwarded_field "Forwarded" (serve pinned q pl r) = ["for=127.0.0.2;host=h.example.com;proto=http"].
+  guard_F4 q pl = true /\ spec_ok q pl r (serve current q pl r) = false /\
+  forwarded_field "Forwarded" (serve current q pl r) = ["for=127.0.0.2;host=h.example.com;proto=http"].
 Proof. exact F4_refuted. Qed.
 Print Assumptions C15_F4_refuted.
 
 Theorem C15_F5_refuted :
-  (exists q pl r, guard_F5 r = true /\ spec_ok q pl r (serve pinned q pl r) = false /\
-                  forwarded_uri (serve pinned q pl r) = "/a%20b/x;y") /\
-  (exists q pl r, guard_F5 r = true /\ spec_ok q pl r (serve pinned q pl r) = false /\
-                  forwarded_uri (serve pinned q pl r) = "/").
+  (exists q pl r, guard_F5 r = true /\ spec_ok q pl r (serve current q pl r) = false /\
+                  forwarded_uri (serve current q pl r) = "/a%20b/x;y") /\
+  (exists q pl r, guard_F5 r = true /\ spec_ok q pl r (serve current q pl r) = false /\
+                  forwarded_uri (serve current q pl r) = "/").
 Proof. exact F5_refuted. Qed.
 Print Assumptions C15_F5_refuted.
 
@@ -163,11 +167,11 @@ Theorem C15_nonvacuous :
   oracle_ok nv_req = true /\
   guard_F1 nv_req nv_rule = false /\ guard_F2 nv_req = false /\ guard_F3 nv_req nv_rule = false /\
   guard_F4 nv_req nv_pl = false /\ guard_F5 nv_rule = false /\
-  serve pinned nv_req nv_pl nv_rule =
+  serve current nv_req nv_pl nv_rule =
     Forwarded false "POST" "/up/v1%2Fx/%3Bq%41?b=%2F&c=" "up:8080"
       [("Accept", ["*/*"]); ("Accept-Encoding", ["gzip"]); ("Authorization", ["Bearer t"]);
        ("Cookie", ["c=1; sid=1"]); ("Forwarded", ["for=127.0.0.9;host=h.example.com;proto=http"]);
-       ("X-User", ["alice"])] "{""a"":1}" /\
-  spec_ok nv_req nv_pl nv_rule (serve pinned nv_req nv_pl nv_rule) = true.
+       ("X-User", ["alice"; "second"])] "{""a"":1}" /\
+  spec_ok nv_req nv_pl nv_rule (serve current nv_req nv_pl nv_rule) = true.
 Proof. exact nonvacuous. Qed.
 Print Assumptions C15_nonvacuous.
